@@ -141,6 +141,9 @@ def deep_equal(I, a, b, path="", skip=()):
             if x.shape != y.shape:
                 bad.append(f"{where}: shape {x.shape} vs {y.shape}")
                 return
+            if (x.dtype == "bool") != (y.dtype == "bool"):
+                bad.append(f"{where}: dtype {x.dtype} vs {y.dtype} (a boolean array rebuilt as numbers behaves differently under ~ and indexing)")
+                return
             for i, (p, q) in enumerate(zip(x.data, y.data)):
                 rec(p, q, f"{where}.flat[{i}]")
             return
